@@ -35,6 +35,9 @@ func c14Gen(runSeed uint64, tier string) *gen.Scenario {
 	k["models"] = int64([]int{0, 1, 3, 12, 51}[g.Intn(5)])
 	k["stores"] = int64([]int{1, 2, 9, 30}[g.Intn(4)])
 	k["page"] = int64(2 + g.Intn(60))
+	// some of the extra stores are deleted again before listing (and some share a name)
+	k["deleted"] = int64(g.Intn(4))
+	k["idsel"] = int64(g.Intn(1 << 30))
 	k["filter"] = int64(g.Intn(3)) // Read: none / object type+user / object
 	k["mut_seed"] = int64(g.Intn(1 << 30))
 	k["delay_mode"] = int64(g.Intn(simrt.NumModes))
@@ -175,7 +178,7 @@ func c14Exec(t *testing.T, sc *gen.Scenario, trace bool) *harness.Outcome {
 			}
 			storeIDs := []string{e.store}
 			for i := 1; i < int(sc.Knob("stores", 1)); i++ {
-				resp, err := b.s.CreateStore(ctx, &openfgav1.CreateStoreRequest{Name: fmt.Sprintf("store-%02d", i)})
+				resp, err := b.s.CreateStore(ctx, &openfgav1.CreateStoreRequest{Name: fmt.Sprintf("store-%02d", i%4)})
 				if err != nil {
 					out.Infra = fmt.Sprintf("%s: create store: %v", b.name, err)
 					return
@@ -183,7 +186,34 @@ func c14Exec(t *testing.T, sc *gen.Scenario, trace bool) *harness.Outcome {
 				storeIDs = append(storeIDs, resp.GetId())
 				time.Sleep(time.Millisecond)
 			}
+			// some stores share a name; some are deleted again: a deleted store is in no listing, whatever
+			// the filter
+			storeName := map[string]string{e.store: "s1"}
+			for i, id := range storeIDs[1:] {
+				storeName[id] = fmt.Sprintf("store-%02d", (i+1)%4)
+			}
+			var deletedIDs []string
+			for d := int(sc.Knob("deleted", 0)); d > 0 && len(storeIDs) > 1; d-- {
+				i := 1 + e.run.Pick(len(storeIDs)-1, "delstore", d)
+				if _, err := b.s.DeleteStore(ctx, &openfgav1.DeleteStoreRequest{StoreId: storeIDs[i]}); err != nil {
+					e.violate("unexpected_error:DeleteStore", "backend="+b.name, "DeleteStore(%s) on %s: %v", storeIDs[i], b.name, err)
+					return
+				}
+				deletedIDs = append(deletedIDs, storeIDs[i])
+				storeIDs = append(storeIDs[:i:i], storeIDs[i+1:]...)
+			}
 			sort.Strings(storeIDs)
+			// the id-filtered listing (what the access-control layer asks the datastore for): a selection
+			// of live, deleted and never-created ids
+			idSel := append([]string{"01HVXR1FST0RE0000000000ZZZ"}, deletedIDs...)
+			var idWant []string
+			for i, id := range storeIDs {
+				if (sc.Knob("idsel", 0)>>(uint(i)%30))&1 == 1 {
+					idSel = append(idSel, id)
+					idWant = append(idWant, id)
+				}
+			}
+			sort.Strings(idSel)
 			// ---- expected listings
 			var readWant []string
 			var tk *openfgav1.ReadRequestTupleKey
@@ -250,7 +280,7 @@ func c14Exec(t *testing.T, sc *gen.Scenario, trace bool) *harness.Outcome {
 						return false
 					}
 					// token hygiene: a mutated token is rejected, or at least never misread into a panic or a hang
-					if len(tokens) > 0 {
+					if len(tokens) > 0 && api != "ListStores[ids]" { // (datastore-level tokens are not the API's opaque tokens)
 						bad := mutateToken(e.run, tokens[0], int(page))
 						_, _, err := fetch(bad)
 						if err == nil {
@@ -334,6 +364,50 @@ func c14Exec(t *testing.T, sc *gen.Scenario, trace bool) *harness.Outcome {
 					}
 					return items, resp.GetContinuationToken(), nil
 				}, false) {
+					return
+				}
+				if !follow("ListStores[ids]", true, idWant, func(token string) ([]string, string, error) {
+					stores, next, err := b.ds.ListStores(ctx, storage.ListStoresOptions{IDs: idSel, Pagination: storage.PaginationOptions{PageSize: int(page), From: token}})
+					if err != nil {
+						return nil, "", err
+					}
+					var items []string
+					for _, s := range stores {
+						items = append(items, s.GetId())
+					}
+					return items, next, nil
+				}, false) {
+					return
+				}
+				if len(storeIDs) > 1 {
+					name := storeName[storeIDs[len(storeIDs)-1]]
+					if storeIDs[len(storeIDs)-1] == e.store {
+						name = storeName[storeIDs[0]]
+					}
+					var nameWant []string
+					for _, id := range storeIDs {
+						if storeName[id] == name {
+							nameWant = append(nameWant, id)
+						}
+					}
+					if !follow("ListStores[name]", true, nameWant, func(token string) ([]string, string, error) {
+						resp, err := b.s.ListStores(ctx, &openfgav1.ListStoresRequest{Name: name, PageSize: wrapperspb.Int32(page), ContinuationToken: token})
+						if err != nil {
+							return nil, "", err
+						}
+						var items []string
+						for _, s := range resp.GetStores() {
+							items = append(items, s.GetId())
+						}
+						return items, resp.GetContinuationToken(), nil
+					}, false) {
+						return
+					}
+				}
+			}
+			for _, id := range deletedIDs {
+				if _, err := b.s.GetStore(ctx, &openfgav1.GetStoreRequest{StoreId: id}); err == nil {
+					e.violate("deleted_store_visible", "api=GetStore backend="+b.name, "GetStore(%s) on %s succeeds after DeleteStore", id, b.name)
 					return
 				}
 			}
